@@ -25,7 +25,7 @@ def main():
         assert r.returncode == 0, r.stdout
     out_path = os.path.join(scratch, "regress.json")
     res = json.load(open(out_path)) if os.path.exists(out_path) else {}
-    env = dict(os.environ, VERIF_REPO=wt, VERIF_SEED="1")
+    env = dict(os.environ, VERIF_REPO=wt, VERIF_SEED=os.environ.get("REGRESS_SEED", "1"))
     for sid in ids:
         if sid in res:
             continue
